@@ -14,7 +14,7 @@ EXPLANATION = (
     "R-C11-2 (key domain): a neighbour map built by get_neighbors_of_nodes for a caller-chosen SUBSET has that subset as its key "
     "domain; an unwrapped lookup in such a map (keys are neighbours, which need not be in the subset) is a violation unless an "
     "existence guard dominates it; the map's provenance is followed inter-procedurally through parameters and closure captures.  "
-    "R-C11-5: the edge lookups reachable from the clustering functions obey the edge stores' canonical-key discipline (same rule as R-C02-3), without which a weight is looked up under an orientation it is not stored under.  R-C11-3: the result of the subset-taking functions depends on the node_names argument (restriction is not ignored).  R-C11-9: the divisor of each of the four clustering quotients, evaluated as arithmetic over a grid of (degree, reciprocal degree), equals d(d-1) resp. 2(d_tot(d_tot-1) - 2 d_rec) (the description tree is evaluated, graphrs is not run).  R-C11-10: transitivity returns sum(triangle field)/sum(d(d-1)).  NOT "
+    "R-C11-5: the edge lookups reachable from the clustering functions obey the edge stores' canonical-key discipline (same rule as R-C02-3), without which a weight is looked up under an orientation it is not stored under.  R-C11-3: the result of the subset-taking functions depends on the node_names argument (restriction is not ignored).  R-C11-9: the divisor of each of the four clustering quotients, evaluated as arithmetic over a grid of (degree, reciprocal degree), equals d(d-1) resp. 2(d_tot(d_tot-1) - 2 d_rec) (the description tree is evaluated, graphrs is not run).  R-C11-10: transitivity returns sum(triangle field)/sum(d(d-1)).  R-C11-11: a coefficient is dropped from average_clustering only by a comparison with the constant 0.  NOT "
     "decided: any coefficient's value, the [0,1] range, that subset values equal the full computation's values."
 )
 TRUSTED = ["rustc MIR construction", "CFG paths over-approximate executions; dependence is over-approximated"]
@@ -189,6 +189,7 @@ def run(ctx):
     else:
         ctx.undecided("R-C11-9", "premise|triangles-halved", "triangles(v) no longer halves the kernel's triangle field; whether field / d(d-1) still is `triangles over neighbour pairs` is not decided", loc_str(tri9.span))
     transitivity_formula(ctx, prog, flows)
+    counted_coefficients(ctx, prog, flows)
     # ------------------------------------------------------------------ R-C11-8
     # Fagiolo's eight directed triangle types: a common neighbour k taken from "predecessors of x" is joined to x by the
     # edge k -> x, one taken from "successors of x" by x -> k.  In the weighted kernel each term multiplies the weights of
@@ -442,3 +443,39 @@ def transitivity_formula(ctx, prog, flows):
         ctx.require(ok, "R-C11-10", "quotient|%d" % n, "transitivity returns sum(triangle field) / sum(d(d-1))",
                     "transitivity does not return sum(triangle field) / sum(d(d-1)): at (sum of fields, sum of d(d-1)) = %s it evaluates to %s instead of %s" % (grid_s[0], round(cols[0], 6), round(grid_s[0][0] / grid_s[0][1], 6)), loc_str(st.span))
     ctx.floor("R-C11-10", "transitivity_quotients", n, 1)
+
+
+def counted_coefficients(ctx, prog, flows):
+    """R-C11-11: "average_clustering is the mean of the counted coefficients" -- with count_zeros == false the counted
+    ones are exactly those that differ from zero.  The test that drops a coefficient compares it with the constant 0,
+    not with a tolerance: weighted coefficients are normalised by the largest weight of the graph, so a genuine
+    coefficient can be 1e-18, and a threshold such as f64::EPSILON removes it from the sum AND from the count."""
+    import re
+
+    ctx.rule("R-C11-11", "average_clustering drops a coefficient only when it compares equal to the constant 0 (no tolerance threshold)")
+    ac = prog.one("cluster::average_clustering")
+    n = 0
+    for b in [ac] + list(prog.closures_of(ac.path)):
+        fl = flows.of(b)
+        for st in b.stmts():
+            if not (st.k == "assign" and st.rv.k == "binop" and st.rv.j["op"] in ("Gt", "Lt", "Ge", "Le", "Ne", "Eq")):
+                continue
+            tys = [o.place.ty if o.place is not None else (o.c or {}).get("ty") for o in st.rv.ops]
+            if "f64" not in tys:
+                continue
+            consts = []
+            for o in st.rv.ops:
+                d = norm(fl.describe(o, depth=6))
+                if isinstance(d, tuple) and d[0] == "const":
+                    consts.append(d[1])
+            if not consts:
+                continue
+            n += 1
+            vals = []
+            for c in consts:
+                m = re.match(r"(?:const )?(-?\d+(?:\.\d+)?(?:[eE][-+]?\d+)?)_?f64$", c.strip())
+                vals.append(float(m.group(1)) if m else None)
+            ok = all(v is not None and v == 0.0 for v in vals)
+            ctx.require(ok, "R-C11-11", "zero-test|%s|%d" % (b.short.split("::", 3)[-1], n), "the coefficient is compared with 0",
+                        "average_clustering compares a coefficient with %s instead of 0: a positive coefficient below that threshold (weighted coefficients are divided by the largest weight in the graph) is dropped from the mean although it is not zero" % consts, loc_str(st.span))
+    ctx.floor("R-C11-11", "coefficient_tests", n, 1)
